@@ -9,11 +9,12 @@ import (
 	"golang.org/x/tools/go/ssa"
 )
 
-// FuncInfo caches per-function analyses.
+// FuncInfo caches per-function analyses. Instrs, path searches, dominance and
+// facts look through transparent helpers (see transparent.go).
 type FuncInfo struct {
 	P      *Prog
 	Fn     *ssa.Function
-	idx    map[ssa.Instruction]int // index inside its block
+	idx    map[ssa.Instruction]int // index inside its block (all module instructions)
 	facts  map[*ssa.BasicBlock]map[Fact]bool
 	pdom   map[*ssa.BasicBlock]map[*ssa.BasicBlock]bool
 	Instrs []ssa.Instruction
@@ -26,29 +27,32 @@ func (p *Prog) Info(fn *ssa.Function) *FuncInfo {
 	if fn == nil || fn.Blocks == nil {
 		undecidedf("function %v has no body", fn)
 	}
-	fi := &FuncInfo{P: p, Fn: fn, idx: map[ssa.Instruction]int{}}
-	for _, b := range fn.Blocks {
-		for i, in := range b.Instrs {
-			fi.idx[in] = i
-			fi.Instrs = append(fi.Instrs, in)
-		}
-	}
+	fi := &FuncInfo{P: p, Fn: fn, idx: instrIdx}
+	fi.Instrs = p.flatInstrs(fn, 0)
 	p.infoCache[fn] = fi
 	return fi
 }
 
 // ---------------------------------------------------------------- dominance
 
-// Dominates: a executes before b on every path from entry to b.
+// Dominates: a executes before b on every path from the entry of fi.Fn to b.
 func (fi *FuncInfo) Dominates(a, b ssa.Instruction) bool {
 	if a == b {
 		return false
 	}
-	ba, bb := a.Block(), b.Block()
-	if ba == bb {
-		return fi.idx[a] < fi.idx[b]
+	if a.Parent() == b.Parent() {
+		ba, bb := a.Block(), b.Block()
+		if ba == bb {
+			return fi.idx[a] < fi.idx[b]
+		}
+		return ba.Dominates(bb)
 	}
-	return ba.Dominates(bb)
+	// across a transparent helper boundary: no path from the entry reaches b without executing a
+	isB := func(x ssa.Instruction) bool { return x == b }
+	if fi.search(pathPoint{fi.Fn.Blocks[0], 0}, isB, nil, nil) == nil {
+		return false // b not reachable from this root at all
+	}
+	return fi.search(pathPoint{fi.Fn.Blocks[0], 0}, isB, func(x ssa.Instruction) bool { return x == a }, nil) == nil
 }
 
 // ---------------------------------------------------------------- must-facts
@@ -77,10 +81,17 @@ func normFact(v ssa.Value, val bool) Fact {
 // the true side, `a || b` contributes neither – exactly the information a
 // guard rule may rely on.
 func (fi *FuncInfo) Facts() map[*ssa.BasicBlock]map[Fact]bool {
-	if fi.facts != nil {
-		return fi.facts
+	return fi.P.factsOf(fi.Fn)
+}
+
+// factsOf computes the per-block must-facts of one function (cached).
+func (p *Prog) factsOf(fn *ssa.Function) map[*ssa.BasicBlock]map[Fact]bool {
+	if p.factCache == nil {
+		p.factCache = map[*ssa.Function]map[*ssa.BasicBlock]map[Fact]bool{}
 	}
-	fn := fi.Fn
+	if f, ok := p.factCache[fn]; ok {
+		return f
+	}
 	in := map[*ssa.BasicBlock]map[Fact]bool{}
 	const top = -1
 	state := map[*ssa.BasicBlock]int{} // 0 = computed, top = unvisited
@@ -162,15 +173,29 @@ func (fi *FuncInfo) Facts() map[*ssa.BasicBlock]map[Fact]bool {
 			in[b] = map[Fact]bool{} // unreachable
 		}
 	}
-	fi.facts = in
+	p.factCache[fn] = in
 	return in
 }
 
-// FactsAt returns the facts holding at instruction `at`.
+// FactsAt returns the facts holding at instruction `at`: the must-facts of its
+// own function plus, when that function is a transparent helper, the facts
+// holding at its unique call site.
 func (fi *FuncInfo) FactsAt(at ssa.Instruction) []Fact {
-	m := fi.Facts()[at.Block()]
+	set := map[Fact]bool{}
+	cur := at
+	for d := 0; d < 10 && cur != nil; d++ {
+		fn := cur.Parent()
+		for f := range fi.P.factsOf(fn)[cur.Block()] {
+			set[f] = true
+		}
+		l, ok := fi.P.helpers[fn]
+		if !ok || fn == fi.Fn {
+			break
+		}
+		cur = l.call
+	}
 	var out []Fact
-	for f := range m {
+	for f := range set {
 		out = append(out, f)
 	}
 	sort.Slice(out, func(i, j int) bool { return out[i].V.Name() < out[j].V.Name() })
@@ -204,32 +229,59 @@ func (fi *FuncInfo) PathAvoiding(from ssa.Instruction, target, barrier func(ssa.
 		start = pathPoint{fi.Fn.Blocks[0], 0}
 	} else {
 		start = pathPoint{from.Block(), fi.idx[from] + 1}
+		// starting right after a call of a transparent helper means after the helper returned
 	}
-	seen := map[*ssa.BasicBlock]bool{}
-	var work []pathPoint
-	work = append(work, start)
+	return fi.search(start, target, barrier, nil)
+}
+
+// search is the path engine: depth-first over (block, index) positions of the
+// flattened program (transparent helpers are entered at their call and left
+// at their returns). target/barrier are not applied to the virtual return
+// instructions of helpers.
+func (fi *FuncInfo) search(start pathPoint, target, barrier func(ssa.Instruction) bool, skipEdge func(p, s *ssa.BasicBlock) bool) ssa.Instruction {
+	p := fi.P
+	seen := map[pathPoint]bool{}
+	work := []pathPoint{start}
 	for len(work) > 0 {
 		pt := work[len(work)-1]
 		work = work[:len(work)-1]
-		blocked := false
+		if seen[pt] {
+			continue
+		}
+		seen[pt] = true
+		fallthroughSuccs := true
 		for i := pt.i; i < len(pt.b.Instrs); i++ {
 			in := pt.b.Instrs[i]
+			fn := in.Parent()
+			if _, isRet := in.(*ssa.Return); isRet && fn != fi.Fn {
+				if l, ok := p.helpers[fn]; ok {
+					// leave the helper: continue after its call site
+					work = append(work, pathPoint{l.call.Block(), fi.idx[l.call] + 1})
+					fallthroughSuccs = false
+					break
+				}
+			}
 			if target(in) {
 				return in
 			}
 			if barrier != nil && barrier(in) {
-				blocked = true
+				fallthroughSuccs = false
+				break
+			}
+			if h := p.helperCall(in); h != nil {
+				work = append(work, pathPoint{h.Blocks[0], 0})
+				fallthroughSuccs = false
 				break
 			}
 		}
-		if blocked {
+		if !fallthroughSuccs {
 			continue
 		}
 		for _, s := range pt.b.Succs {
-			if !seen[s] {
-				seen[s] = true
-				work = append(work, pathPoint{s, 0})
+			if skipEdge != nil && skipEdge(pt.b, s) {
+				continue
 			}
+			work = append(work, pathPoint{s, 0})
 		}
 	}
 	return nil
@@ -265,7 +317,11 @@ func (fi *FuncInfo) Reaches(a, b ssa.Instruction) bool {
 
 // strip removes representation-only conversions.
 func strip(v ssa.Value) ssa.Value {
-	for {
+	for n := 0; n < 64; n++ {
+		if a, ok := valueAlias[v]; ok && a != nil {
+			v = a
+			continue
+		}
 		switch x := v.(type) {
 		case *ssa.ChangeType:
 			v = x.X
@@ -279,6 +335,7 @@ func strip(v ssa.Value) ssa.Value {
 			return v
 		}
 	}
+	return v
 }
 
 // fieldVar returns the struct field selected by a FieldAddr/Field value.
@@ -476,7 +533,7 @@ func (p *Prog) CallSites(fn *ssa.Function, fns ...*ssa.Function) []ssa.Instructi
 func (p *Prog) AllCallSites(fns ...*ssa.Function) []ssa.Instruction {
 	var out []ssa.Instruction
 	for _, fn := range p.Funcs {
-		out = append(out, p.CallSites(fn, fns...)...)
+		out = append(out, p.ownCallSites(fn, fns...)...)
 	}
 	return out
 }
@@ -785,36 +842,7 @@ func (fi *FuncInfo) PathAvoidingEdges(from ssa.Instruction, target, barrier func
 	} else {
 		start = pathPoint{from.Block(), fi.idx[from] + 1}
 	}
-	seen := map[*ssa.BasicBlock]bool{}
-	work := []pathPoint{start}
-	for len(work) > 0 {
-		pt := work[len(work)-1]
-		work = work[:len(work)-1]
-		blocked := false
-		for i := pt.i; i < len(pt.b.Instrs); i++ {
-			in := pt.b.Instrs[i]
-			if target(in) {
-				return in
-			}
-			if barrier != nil && barrier(in) {
-				blocked = true
-				break
-			}
-		}
-		if blocked {
-			continue
-		}
-		for _, s := range pt.b.Succs {
-			if skipEdge != nil && skipEdge(pt.b, s) {
-				continue
-			}
-			if !seen[s] {
-				seen[s] = true
-				work = append(work, pathPoint{s, 0})
-			}
-		}
-	}
-	return nil
+	return fi.search(start, target, barrier, skipEdge)
 }
 
 // edgeWhere returns a predicate selecting the CFG edges on which the fact
